@@ -1,6 +1,9 @@
 """C18 - a plot draws exactly the fit's numbers.
 
 Mode D (complete product): fit type x uncertainty configuration x data region x axis scales x plot option x {one fit, two fits},
+plus two smaller complete products: the cost-function dimension (every built-in Poisson-type cost function x {without, with} a declared
+source, the Gaussian likelihoods with a source; cost given by name and as an object) x data region x panel, and the plotted-object
+dimension (a MultiFit of two members {without, with} a common parameter instead of a list of fits) x fit type x member configuration x option,
 (data region: all values positive and inside the range / one zero count or empty bin / histogram entries outside the bin range /
 histogram model given as counts, density=False),
 each executed on the real kafe2.Plot (Agg backend) after do_fit().  The matplotlib artists of Plot.axes are read back
@@ -25,9 +28,14 @@ RULE = (
     "configurations = (fit type, uncertainty configuration, data region, axis scales, plot option, number of fits on the plot); each is built "
     "from fixed arrays on the real API, fitted, plotted with kafe2.Plot and every data-bearing artist of Plot.axes (error bar "
     "containers, model lines / bars / steps, bands, ratio / residual / pull panels, figure legend) is read back and compared; a "
-    "configuration is non-trivial when at least one error bar has non-zero length, a panel or a band is drawn, or two fits share the plot"
+    "configuration is non-trivial when at least one error bar has non-zero length, a panel or a band is drawn, or two fits share the plot; "
+    "when the plotted object is a MultiFit the members are fitted through it only, every member is compared like a single fit and the "
+    "legend block of every member additionally with the MultiFit's results (parameter values / uncertainties by name, global lines)"
 )
 ASSUMPTIONS = [
+    "the cost functions that 'imply Poisson statistics' are the Poisson likelihood, the Poisson likelihood ratio and the Gauss approximation of the Poisson likelihood (however they are specified: by name or as a cost function object); chi2 and the Gaussian likelihood / likelihood ratio do not: their bars show the declared sources only",
+    "a member of a plotted MultiFit is drawn with the member's own public numbers (model function at member.parameter_values, member goodness of fit / ndf in its legend block); its parameter values / uncertainties in the legend must also agree with the MultiFit's results for the parameter of that name, the analytic band oracle uses the member's block of the MultiFit's covariance matrix, and the 'global' legend lines are compared with goodness_of_fit, ndf, chi2_probability and cost_function_value of the MultiFit; which global lines are shown is not prescribed (at least one is required)",
+    "an uncertainty source declared on the MultiFit for all members belongs to the total pointwise uncertainty of every member (error bars, ratio / residual bars, pull denominators)",
     "the association artist -> (fit index, subplot type) is taken from the documented return value of Plot.plot() and every such artist is verified to be a child of the corresponding axes in Plot.axes",
     "pull panels are only requested when every point of the fit has a non-zero pointwise y uncertainty (a pull without uncertainty is undefined: no source at all, or a zero value whose only uncertainty is the Poisson term or a source relative to the data); ratio / residual / pull of an unbinned fit must be rejected with TypeError (no y data)",
     "a point whose total y uncertainty is zero (a zero count under pure Poisson statistics, a zero value with data-relative y sources only) has an error bar of zero length; the bars of the other points are the statement's 'total pointwise uncertainties' regardless",
@@ -75,6 +83,19 @@ def configs(tier, v):
     return out
 
 
+COST_OPTS = ["ratio", "residual", "pull"]  # every panel that draws the pointwise uncertainty (each of them also draws the main panel)
+ROLESETS = {"quick": ("A", "AB"), "thorough": ("A", "AB", "BA", "B")}
+COST_ROLESETS = {"quick": ("AB",), "thorough": ROLESETS["thorough"]}
+# the plotted object is a MultiFit: of two members without a common parameter (A, B) and of two members that share one (A, C)
+MULTI_ROLESETS = ("m:AB", "m:AC")
+
+
+def roles_of(roleset):
+    """'AB' -> (['A', 'B'], False); 'm:AC' -> (['A', 'C'], True)"""
+    multi = roleset.startswith("m:")
+    return list(roleset[2:] if multi else roleset), multi
+
+
 def jobs(tier, seed):
     vals = [seed % 3] if tier == "quick" else [0, 1, 2]
     specs = []
@@ -83,11 +104,32 @@ def jobs(tier, seed):
             opts = OPTS if tier == "quick" else OPTS_THOROUGH
             nchunk = {"xy": 3, "hist": 2}.get(ftype, 1) * (1 if tier == "quick" else 2)
             for c in range(nchunk):
-                specs.append((ftype, unc, axes, vv, tier, tuple(opts[c::nchunk]), data))
+                specs.append((ftype, unc, axes, vv, tier, tuple(opts[c::nchunk]), data, ROLESETS[tier]))
     # heavy jobs first (xy plots have the most artists), cheap ones fill the gaps
     weight = {"xy": 0, "hist": 1, "indexed": 2, "unbinned": 3}
     specs.sort(key=lambda s: (weight[s[0]], s[3]))
-    return specs
+    extra = []
+    for v in vals:
+        for ftype in ("xy", "indexed", "hist", "unbinned"):
+            # the cost-function dimension: cost function x {without, with} a declared source x data region x panel
+            for unc in R.UNC_COST[ftype]:
+                if tier == "thorough" and unc in R.UNC_THOROUGH_EXTRA[ftype]:
+                    continue  # already in the first product
+                for data in ("regular", "zero"):
+                    for axes in R.axes_for(ftype, "zero", tier):  # linear (quick), linear and fully logarithmic (thorough)
+                        opts = COST_OPTS if tier == "quick" else OPTS
+                        nchunk = 1 if tier == "quick" else 2
+                        for c in range(nchunk):
+                            extra.append((ftype, unc, axes, v, tier, tuple(opts[c::nchunk]), data, COST_ROLESETS[tier]))
+            # the plotted object is a MultiFit
+            for unc in R.UNC_MULTI[ftype]:
+                for axes in R.axes_for(ftype, "zero", tier):
+                    opts = OPTS if tier == "quick" else OPTS_THOROUGH
+                    nchunk = 2 if tier == "quick" else 4
+                    for c in range(nchunk):
+                        extra.append((ftype, unc, axes, v, tier, tuple(opts[c::nchunk]), "regular", MULTI_ROLESETS))
+    extra.sort(key=lambda s: (weight[s[0]], s[3]))
+    return specs + extra
 
 
 DETCHECK_JOB = 0
@@ -98,7 +140,14 @@ def bound(tier, seed):
         "complete product: fit types {xy, indexed, histogram, unbinned} x uncertainty configurations %s x axis scales {lin, log x, log y, "
         "log x+y where the adapter allows} x options %s x {one fit, two fits on one plot%s}; valuation(s) %s; every artist of every panel compared; "
         "data regions {regular on all axis scales; one zero count / empty bin (xy, indexed, histogram), histogram entries below and above "
-        "the bin range and histogram model given as counts (density=False) on %s} x all of the other dimensions"
+        "the bin range and histogram model given as counts (density=False) on %s} x all of the other dimensions; "
+        "cost-function product: fit types {xy, indexed, histogram} x cost functions {Poisson likelihood, Poisson likelihood ratio, Gauss "
+        "approximation} x {no declared source, one y source} and {Gaussian likelihood, Gaussian likelihood ratio} x {one y source} (those not "
+        "in the first product) x data regions {regular, one zero count / empty bin} x %s, the cost function given by name (first fit) and as "
+        "a cost function object (second fit); "
+        "MultiFit product: the plotted object is a MultiFit of two members {without, with} a parameter common to both x fit types {xy, "
+        "indexed, histogram, unbinned} x member configurations {no source, y sources, y sources + one source declared on the MultiFit and "
+        "shared by the members (xy, indexed), Poisson likelihood, Poisson likelihood ratio} x %s"
         % (
             "{none, y (two sources, one correlated), x+y (absolute and relative), x + y relative to the data only, Poisson nll, Gauss approximation + y source}"
             + ("" if tier == "quick" else " + {Poisson nll + y source, y with a fixed parameter}"),
@@ -106,6 +155,8 @@ def bound(tier, seed):
             "" if tier == "quick" else ", both orders of the two fits",
             (seed % 3) if tier == "quick" else "0,1,2",
             "linear axes" if tier == "quick" else "linear and fully logarithmic axes",
+            "panels {ratio, residual, pull} on linear axes with two fits on the plot" if tier == "quick" else "the six single options x linear and fully logarithmic axes x one / two fits in both orders",
+            "the six options on linear axes" if tier == "quick" else "all 13 options x linear and fully logarithmic axes",
         )
     )
 
@@ -196,6 +247,12 @@ def _check_band(rec, tag, poly, w, xlim, kind):
     rec.cmp(tag + ":band_upper", hi, np.maximum(elo, ehi), ("xy", kind, "band"))
     # second, independent oracle: analytic propagation of the public parameter covariance matrix
     cov = fit.parameter_cov_mat
+    if w.multi_num is not None:
+        # the parameter uncertainty of a member of a MultiFit is the MultiFit's: the member's block of its covariance matrix
+        cov = w.multi_num.parameter_cov_mat
+        if cov is not None:
+            idx = [list(w.multi_num.parameter_names).index(n) for n in fit.parameter_names]
+            cov = np.asarray(cov)[np.ix_(idx, idx)]
     if cov is not None and w.jac is not None:
         free = [i for i, n in enumerate(fit.parameter_names) if n not in w.fixed]
         J = w.jac(xs, *w.pars())[free]
@@ -358,6 +415,9 @@ def check_legend(rec, label, fig, worlds, asym):
         # asymmetric errors re-minimises, which moves the results by a fraction of the minimiser tolerance)
         srcs = [w.num] + ([w.fit] if w.fit is not w.num else [])
         fit = w.num
+        # a member of a plotted MultiFit: parameter values / uncertainties are results of the MultiFit
+        msrcs = [] if w.multi_num is None else [w.multi_num] + ([w.multi] if w.multi is not w.multi_num else [])
+        mnames = [] if w.multi_num is None else list(w.multi_num.parameter_names)
         tag = "%s:legend:%s" % (label, w.role)
         fname = w.fn.__name__
         mine = [b for b in blocks if b["function"] == fname]
@@ -368,9 +428,9 @@ def check_legend(rec, label, fig, worlds, asym):
         if not rec.truth(tag + ":par_names", [p["name"] for p in b["pars"]] == names, names, [p["name"] for p in b["pars"]], ("legend", "names")):
             continue
 
-        def agree(shown, getter):
+        def agree(shown, getter, sources=srcs):
             vals = []
-            for f in srcs:
+            for f in sources:
                 try:
                     x = getter(f)
                 except Exception:  # noqa: BLE001
@@ -385,6 +445,13 @@ def check_legend(rec, label, fig, worlds, asym):
             ptag = "%s:%s" % (tag, p["name"])
             ok, exp = agree(p["value"], lambda f: f.parameter_values[i])
             rec.truth(ptag + ":value", ok, exp, p["value"].text, (w.ftype, "legend", "value"))
+            if msrcs and rec.truth(ptag + ":multifit_parameter", names[i] in mnames, names[i], mnames, (w.ftype, "legend", "multi_name")):
+                j = mnames.index(names[i])
+                ok, exp = agree(p["value"], lambda f: f.parameter_values[j], msrcs)
+                rec.truth(ptag + ":multifit_value", ok, exp, p["value"].text, (w.ftype, "legend", "multi_value"))
+                if p["err"] is not None:
+                    ok, exp = agree(p["err"], lambda f: f.parameter_errors[j], msrcs)
+                    rec.truth(ptag + ":multifit_error", ok, exp, p["err"].text, (w.ftype, "legend", "multi_error"))
             if names[i] in w.fixed:
                 rec.truth(ptag + ":fixed_flag", p["fixed"] and p["err"] is None and p["up"] is None, "(fixed)", b["raw"], (w.ftype, "legend", "fixed"))
                 continue
@@ -394,12 +461,15 @@ def check_legend(rec, label, fig, worlds, asym):
             if p["up"] is not None:
                 # asymmetric errors are only ever read from the plotted fit (which cached them during the plot call):
                 # reading them from the reference twin would re-minimise the twin and spoil it as 'state after do_fit()'
-                ae = w.fit.asymmetric_parameter_errors[i]
+                if msrcs:
+                    ae = w.multi.asymmetric_parameter_errors[mnames.index(names[i])]
+                else:
+                    ae = w.fit.asymmetric_parameter_errors[i]
                 rec.truth(ptag + ":error_up", p["up"].agrees(abs(ae[1])), float(ae[1]), p["up"].text, (w.ftype, "legend", "error_up"))
                 rec.truth(ptag + ":error_down", p["down"].agrees(abs(ae[0])), float(ae[0]), p["down"].text, (w.ftype, "legend", "error_down"))
             if valid and not asym:
                 rec.truth(ptag + ":error_shown", p["err"] is not None, float(fit.parameter_errors[i]), "no uncertainty displayed", (w.ftype, "legend", "error_shown"))
-            if valid and asym and w.fit.asymmetric_parameter_errors is not None:
+            if valid and asym and (w.multi if msrcs else w.fit).asymmetric_parameter_errors is not None:
                 rec.truth(ptag + ":asym_shown", p["up"] is not None, "asymmetric uncertainties", "not displayed", (w.ftype, "legend", "asym_shown"))
         rec.truth(tag + ":gof_present", len(b["gof"]) >= 1, "goodness-of-fit / cost line", "none", (w.ftype, "legend", "gof_present"))
         ndf = fit.ndf
@@ -417,11 +487,30 @@ def check_legend(rec, label, fig, worlds, asym):
             else:
                 ok, exp = agree(g["value"], lambda f: f.cost_function_value)
                 rec.truth(tag + ":cost_value", ok, exp, g["value"].text, (w.ftype, "legend", "cost"))
+        if not msrcs:
+            continue
+        # the lines about the MultiFit as a whole (repeated under the block of every member)
+        rec.truth(tag + ":global_present", len(b["global"]) >= 1, "goodness-of-fit / cost line of the MultiFit", "none", (w.ftype, "legend", "global_present"))
+        mndf = w.multi_num.ndf
+        for g in b["global"]:
+            if g["kind"] == "per_ndf":
+                ok, exp = agree(g["value"], lambda f: f.goodness_of_fit, msrcs)
+                rec.truth(tag + ":global_gof", ok, exp, g["value"].text, (w.ftype, "legend", "global_gof"))
+                rec.truth(tag + ":global_ndf", g["ndf"] == mndf, mndf, g["ndf"], (w.ftype, "legend", "global_ndf"))
+                if g["ratio"] is not None:
+                    ok, exp = agree(g["ratio"], lambda f: float(f.goodness_of_fit) / f.ndf, msrcs)
+                    rec.truth(tag + ":global_gof_per_ndf", ok, exp, g["ratio"].text, (w.ftype, "legend", "global_gof_per_ndf"))
+            elif g["kind"] == "probability":
+                ok, exp = agree(g["value"], lambda f: f.chi2_probability, msrcs)
+                rec.truth(tag + ":global_chi2_probability", ok, exp, g["value"].text, (w.ftype, "legend", "global_probability"))
+            else:
+                ok, exp = agree(g["value"], lambda f: f.cost_function_value, msrcs)
+                rec.truth(tag + ":global_cost_value", ok, exp, g["value"].text, (w.ftype, "legend", "global_cost"))
 
 
 def pull_defined(ftype, unc, data="regular"):
     # a zero count under pure Poisson statistics has zero uncertainty: its pull is undefined
-    return ftype != "unbinned" and unc != "none" and not (unc in ("poisson", "x+rely") and data == "zero")
+    return ftype != "unbinned" and unc != "none" and not (unc in ("poisson", "x+rely", "nllr", "ga") and data == "zero")
 
 
 _UNIT = {}
@@ -456,6 +545,7 @@ def execute(cfg):
     rec = Rec()
     ftype, unc, axes, opt, roles, v = cfg["ftype"], cfg["unc"], cfg["axes"], cfg["opt"], cfg["roles"], cfg["v"]
     data = cfg.get("data", "regular")
+    multi = bool(cfg.get("multi", False))
     kw, separate = opt_kwargs(opt)
     rec.ops = 0
     try:
@@ -463,21 +553,32 @@ def execute(cfg):
         with warnings.catch_warnings(), contextlib.redirect_stdout(io.StringIO()):
             warnings.simplefilter("ignore")
             worlds = [R.World(ftype, unc, v, r, data) for r in roles]
+            mfit = R.make_multi(worlds, unc) if multi else None
             for w in worlds:
                 w.unit_ref = density_unit(w.role, v) if (ftype == "hist" and data != "regular") else None
-                w.fit.do_fit()
+                if not multi:
+                    w.fit.do_fit()
+                rec.ops += 2
+            if multi:
+                mfit.do_fit()  # the members are fitted through the MultiFit only
                 rec.ops += 2
             if "asym" in opt.split("+"):
                 # asking a fit for asymmetric errors re-minimises it; the expectation is read from an identically
                 # built and fitted twin that is never plotted (the state 'after do_fit()' the statement speaks about)
-                for w in worlds:
-                    t = R.World(ftype, unc, v, w.role, data)
-                    t.fit.do_fit()
+                twins = [R.World(ftype, unc, v, w.role, data) for w in worlds]
+                if multi:
+                    tm = R.make_multi(twins, unc)
+                    tm.do_fit()
+                for w, t in zip(worlds, twins):
+                    if not multi:
+                        t.fit.do_fit()
+                    else:
+                        w.multi_num = tm
                     w.num = t.fit
             before = [[float(x) for x in w.fit.parameter_values] for w in worlds]
             twin_ok = all([float(x) for x in w.num.parameter_values] == b for w, b in zip(worlds, before))
             rec.truth("harness:twin_identical", twin_ok, "identical parameter values of two identically built fits", "differ", (ftype, "twin"), mode="harness")
-            p = kafe2.Plot([w.fit for w in worlds], separate_figures=separate)
+            p = kafe2.Plot(mfit if multi else [w.fit for w in worlds], separate_figures=separate)
             if "x" in axes[3:]:
                 p.x_scale = "log"
             if "y" in axes[3:]:
@@ -542,7 +643,7 @@ _MEMO = {}
 
 
 def _fails(cfg, observable):
-    key = (cfg["ftype"], cfg["unc"], cfg["axes"], cfg["opt"], tuple(cfg["roles"]), cfg["v"], cfg.get("data", "regular"))
+    key = (cfg["ftype"], cfg["unc"], cfg["axes"], cfg["opt"], tuple(cfg["roles"]), cfg["v"], cfg.get("data", "regular"), bool(cfg.get("multi", False)))
     if key not in _MEMO:
         if not generated(cfg["ftype"], cfg["unc"], cfg["opt"], cfg.get("data", "regular")):
             _MEMO[key] = {}
@@ -560,12 +661,17 @@ def minimise(cfg, bad):
     obs = bad["observable"]
     cur, curbad = dict(cfg), bad
     role = None
-    for r in ("A", "B"):
+    for r in ("A", "B", "C"):
         if ("fit%s:" % r) in obs or (":legend:%s:" % r) in obs:
             role = r
     trials = []
-    if len(cur["roles"]) > 1 and not obs.startswith("fig1") and not obs.startswith("fig0"):
-        for r in [role] if role is not None else ["A", "B"]:
+    cur.setdefault("multi", False)
+    if cur["multi"] and cur["unc"] == "y+msh":
+        pass  # the source declared on the MultiFit does not exist without it: neither the MultiFit nor a member is dropped
+    elif len(cur["roles"]) > 1 and not obs.startswith("fig1") and not obs.startswith("fig0"):
+        if cur["multi"]:
+            trials.append(("multi", False))  # the same fits as a plain list
+        for r in [role] if role is not None else list(cur["roles"]):
             trials.append(("roles", [r]))
     trials.append(("axes", "lin"))
     trials.append(("data", "regular"))
@@ -590,7 +696,9 @@ def minimise(cfg, bad):
             continue
         t = dict(cur)
         t[dim] = val
-        if dim == "unc" and val not in R.UNC[t["ftype"]]:
+        if dim == "roles":
+            t["multi"] = False
+        if dim == "unc" and val not in (R.UNC_MULTI if t["multi"] else R.UNC)[t["ftype"]]:
             continue
         if dim == "roles" and len(cur["roles"]) == 1:
             continue
@@ -599,6 +707,8 @@ def minimise(cfg, bad):
             cur, curbad = t, b
             if dim == "unc":
                 unc_done = True
+    if not cur.get("multi"):
+        cur.pop("multi", None)
     return cur, curbad
 
 
@@ -606,34 +716,37 @@ def sig_of(cfg, observable):
     # the data region is only named when it is not the regular one (signatures of regular configurations stay as they were)
     d = cfg.get("data", "regular")
     unc = cfg["unc"] if d == "regular" else "%s,data=%s" % (cfg["unc"], d)
-    return "%s|unc=%s|axes=%s|opt=%s|fits=%s|%s" % (cfg["ftype"], unc, cfg["axes"], cfg["opt"], "".join(cfg["roles"]), observable)
+    fits = "".join(cfg["roles"])
+    if cfg.get("multi", False):
+        fits = "multi(%s)" % fits
+    return "%s|unc=%s|axes=%s|opt=%s|fits=%s|%s" % (cfg["ftype"], unc, cfg["axes"], cfg["opt"], fits, observable)
 
 
 # ---------------------------------------------------------------------------------------
 
 
 def run_job(spec):
-    ftype, unc, axes, v, tier, opts, data = spec
+    ftype, unc, axes, v, tier, opts, data, rolesets = spec
     res = JobResult()
     _MEMO.clear()
-    rolesets = [["A"], ["A", "B"]]
-    if tier == "thorough":
-        rolesets += [["B", "A"], ["B"]]
     seen_sigs = set()
     worst = 0.0
     for opt in opts:
-        for roles in rolesets:
+        for roleset in rolesets:
+            roles, multi = roles_of(roleset)
             if not generated(ftype, unc, opt, data):
                 res.facts["not-generated:pull-without-uncertainty"] += 1
                 continue
             if "separate" in opt.split("+") and len(roles) == 1 and tier == "quick":
                 pass  # separate_figures with a single fit is still a legal call: kept (one figure expected)
             cfg = dict(ftype=ftype, unc=unc, axes=axes, opt=opt, roles=roles, v=v, data=data)
+            if multi:
+                cfg["multi"] = True
             rec = execute(cfg)
             res.executions += 1
             res.transitions += getattr(rec, "ops", 0)
             res.evaluations += rec.n
-            key = (ftype, unc, axes, opt, tuple(roles), v) + ((data,) if data != "regular" else ())
+            key = (ftype, unc, axes, opt, tuple(roles), v) + ((data,) if data != "regular" else ()) + (("multi",) if multi else ())
             res.state(key)
             if getattr(rec, "nontrivial", False):
                 res.nontriv(key)
@@ -649,6 +762,9 @@ def run_job(spec):
             res.facts["axes:" + axes] += 1
             res.facts["opt:" + opt] += 1
             res.facts["nfits:%d" % len(roles)] += 1
+            res.facts["plotted:" + ("multifit" if multi else "fits")] += 1
+            if multi:
+                res.facts["multifit:" + ("common-parameter" if "C" in roles else "disjoint-parameters")] += 1
             res.max_depth = max(res.max_depth, len(roles))
             done = set()
             for b in rec.bad:
@@ -664,7 +780,7 @@ def run_job(spec):
     # measured basis of the tolerance: largest relative deviation among accepted comparisons, in decades
     if worst > 0:
         res.facts["max-accepted-relative-deviation-of-exact-comparisons<=1e%d" % int(np.ceil(np.log10(worst)))] += 1
-    res.sample(dict(fit=ftype, uncertainties=unc, data=data, axes=axes, valuation=v, options=opts, fits_on_plot=rolesets))
+    res.sample(dict(fit=ftype, uncertainties=unc, data=data, axes=axes, valuation=v, options=opts, fits_on_plot=list(rolesets)))
     return res.as_dict()
 
 
@@ -689,6 +805,11 @@ def vacuity_guards(tot, tier):
     yield "one and two fits per plot", tot.facts.get("nfits:1", 0) > 0 and tot.facts.get("nfits:2", 0) > 0
     yield "all data regions plotted", all(tot.facts.get("data:" + d, 0) > 0 for d in ("regular", "zero", "outflow", "counts"))
     yield "log axes plotted", tot.facts.get("axes:logx", 0) > 0 and tot.facts.get("axes:logy", 0) > 0
+    yield "every cost-function configuration plotted", all(tot.facts.get("unc:" + u, 0) > 0 for u in R.UNC_COST_ALL + ["poisson", "ga+y"])
+    yield "MultiFit objects plotted (with and without a common parameter)", all(
+        tot.facts.get(k, 0) > 0 for k in ("plotted:multifit", "multifit:common-parameter", "multifit:disjoint-parameters")
+    )
+    yield "MultiFit with a source shared by the members plotted", tot.facts.get("unc:y+msh", 0) > 0
     oc = {k[:-1] for k in tot.outcomes if k[-1] == "ok"}
     need = [
         ("xy", "main", "ybar"), ("xy", "main", "xbar"), ("hist", "main", "bin_span"), ("xy", "main", "band"), ("xy", "ratio", "band"), ("xy", "residual", "band"),
@@ -698,6 +819,11 @@ def vacuity_guards(tot, tier):
         ("xy", "main", "ybar_partial_zero"), ("xy", "ratio", "ybar_partial_zero"), ("xy", "residual", "ybar_partial_zero"), ("indexed", "main", "ybar_partial_zero"),
         ("indexed", "ratio", "ybar_partial_zero"), ("indexed", "residual", "ybar_partial_zero"), ("hist", "main", "ybar_partial_zero"), ("hist", "ratio", "ybar_partial_zero"),
         ("hist", "residual", "ybar_partial_zero"), ("hist", "main", "density_scale_outflow"), ("hist", "main", "density_scale_counts"), ("hist", "main", "density_scale_zero"),
+    ]
+    need += [
+        ("xy", "legend", "global_ndf"), ("indexed", "legend", "global_ndf"), ("hist", "legend", "global_ndf"), ("xy", "legend", "global_gof"),
+        ("hist", "legend", "global_gof_per_ndf"), ("xy", "legend", "global_probability"), ("hist", "legend", "global_cost"), ("unbinned", "legend", "global_cost"),
+        ("xy", "legend", "multi_value"), ("indexed", "legend", "multi_error"), ("unbinned", "legend", "multi_value"),
     ]
     for n in need:
         yield "artist class %s compared" % "/".join(n), n in oc
